@@ -71,6 +71,9 @@ def classify(backend, issue):
         msg = re.sub(r"\(at offset 0x[0-9a-f]+\)", "", issue.get("detail", ""))
         msg = msg.split(": ")[-1] if len(msg) > 120 else msg
         return "%s:encoder-reject:%s" % (backend, compz.normalise(msg))
+    if backend == "csharp" and kind in ("payload-index-kind", "payload-index-duplicate-type"):
+        # same root cause as the listed finding: C# numbers payload types per interface, not per function
+        return "csharp:import-unoffered:payload-intrinsic"
     if kind == "payload-index-kind":
         return "%s:payload-intrinsic-index:kind-mismatch" % backend
     if kind == "payload-index-duplicate-type":
